@@ -3,6 +3,8 @@ Simulation lemmas for C08/C15: every branch of the model of stream.go is matched
 -/
 import Sonic.Lemmas.WsOut
 
+set_option linter.unusedSimpArgs false
+
 namespace Sonic.Lemmas.WsRefine
 open Sonic.Spec.WsStream Sonic.Model.WsStream Sonic.Lemmas.WsOut
 
@@ -381,5 +383,350 @@ theorem nf {m : M} {s : S} (h : Q m s) (async : Bool) :
       · exact Ext.flush m
       · exact ⟨m.pending, rfl⟩
     · simp [GotOk, retOk]
+
+theorem receive_conf {s : S} {f : InFrame} (h : (receive s).2 = .frame f) : isViolation f = false := by
+  unfold receive at h
+  rcases hrx : rx s with ⟨r, s'⟩
+  rw [hrx] at h
+  cases r with
+  | frame g =>
+    simp only at h
+    by_cases hv : isViolation g = true
+    · simp [hv] at h
+    · simp only [hv] at h
+      have : g = f := by injection h
+      subst this; simpa using hv
+  | _ => simp at h
+
+/-! ## Close / AsyncClose -/
+
+theorem close_inactive (m : M) (code : Nat) (reason : Bytes) (h : m.state ≠ .active) : (close m code reason).1 = m := by
+  unfold close
+  cases hm : m.state <;> simp_all
+
+theorem close_err_inactive (m : M) (code : Nat) (reason : Bytes) (h : m.state ≠ .active) :
+    (close m code reason).2 ≠ .nil := by
+  unfold close
+  cases hm : m.state <;> simp_all
+
+theorem Q_close {m : M} {s : S} (h : Q m s) (ha : m.state = .active) (code : Nat) (reason : Bytes) (x : Expect)
+    (hx : x.matches { fin := true, op := 8, masked := true, payload := u16 code ++ reason } = true) :
+    Q (close m code reason).1 { s.push x with stage := .closing } ∧ (close m code reason).2 = .nil ∧
+      Ext m (close m code reason).1 ∧ (close m code reason).1.state = .closedByUs := by
+  have e : close m code reason = (flush (prepareClose { m with state := .closedByUs } (u16 code ++ reason)), .nil) := by
+    unfold close; simp [ha]
+  rw [e]
+  refine ⟨⟨h.max, h.inq, h.rerr, h.eof, by simp [stateOk, flush, prepareClose, prepareWrite], ?_, ?_, ?_⟩, rfl, ?_, rfl⟩
+  · rw [out_flush]
+    show matchExact (s.expect ++ [x]) (out (prepareWrite { m with state := .closedByUs } _)) = true
+    rw [out_prepareWrite]
+    exact matchExact_snoc h.ex hx
+  · rw [out_flush]
+    show closeLast (out (prepareWrite { m with state := .closedByUs } _)) = true
+    rw [out_prepareWrite]
+    exact closeLast_snoc _ (h.nc ha)
+  · intro hx; simp [flush, prepareClose, prepareWrite] at hx
+  · exact ⟨m.pending ++ [{ fin := true, op := 8, masked := true, payload := u16 code ++ reason }],
+      by simp [flush, prepareClose, prepareWrite]⟩
+
+/-! ## NextMessage / AsyncNextMessage against the monitor's message assembly -/
+
+def AsmRel (a : Asm) (ty : Option Nat) : Prop :=
+  a.n = a.data.length ∧
+  ((a.ty = 255 ∧ a.cont = false ∧ ty = none) ∨ (a.ty ≠ 255 ∧ a.cont = true ∧ ty = some a.ty))
+
+theorem isControl_of (op : Nat) (h : op = 8 ∨ op = 9 ∨ op = 10) : isControl op = true ∧ controlOp op = true := by
+  rcases h with h | h | h <;> subst h <;> exact ⟨rfl, rfl⟩
+
+theorem notControl_of (op : Nat) (h : op = 0 ∨ op = 1 ∨ op = 2) : isControl op = false ∧ controlOp op = false := by
+  rcases h with h | h | h <;> subst h <;> exact ⟨rfl, rfl⟩
+
+theorem nm (async : Bool) (buf : Nat) (cn : Bool) : ∀ (fuel : Nat) (m : M) (s : S) (a : Asm) (ty : Option Nat),
+    Q m s → AsmRel a ty → a.n ≤ buf →
+    ∃ m' e a', nextMessage async buf fuel m a = some (m', e, a') ∧ Ext m m' ∧
+      (readMsg cn buf fuel s ty a.data).1.seen = s.seen ∧
+      (readMsg cn buf fuel s ty a.data).1.sentClose = s.sentClose ∧
+      (cn = (m'.state == .closedByUs) →
+        Q m' (readMsg cn buf fuel s ty a.data).1 ∧
+        retOk (readMsg cn buf fuel s ty a.data).2 (.msg e a'.ty a'.n a'.data true a'.ctl) = true) := by
+  intro fuel
+  induction fuel with
+  | zero =>
+    intro m s a ty hQ _ _
+    exact ⟨m, .other, a, rfl, Ext.refl m, rfl, rfl, fun _ => ⟨hQ, by simp [readMsg, retOk]⟩⟩
+  | succ fuel ih =>
+    intro m s a ty hQ hA hn
+    obtain ⟨m1, e, fo, h1, hQ1, hE1, hG⟩ := nf hQ async
+    have hfr := receive_frame s
+    have hconf := @receive_conf s
+    rcases hrec : receive s with ⟨s1, g⟩
+    rw [hrec] at hQ1 hG hfr hconf
+    simp only at hQ1 hG hfr hconf
+    rw [nextMessage, readMsg]
+    simp only [h1, hrec]
+    cases g with
+    | stop w =>
+      obtain ⟨hne, _, hmsg⟩ := hG
+      simp only [ne_eq, hne, not_false_eq_true, if_true]
+      exact ⟨m1, e, a, rfl, hE1, hfr.1, hfr.2.1, fun _ => ⟨hQ1, hmsg _ _ _ _⟩⟩
+    | violated =>
+      have hne : e ≠ .nil := by intro hx; subst hx; simp [GotOk, Err.isProto] at hG
+      simp only [ne_eq, hne, not_false_eq_true, if_true]
+      refine ⟨m1, e, a, rfl, hE1, hfr.1, hfr.2.1, fun _ => ⟨hQ1, ?_⟩⟩
+      have hp : e.isProto = true := hG
+      simp [retOk, hp, hA.1]
+    | frame f =>
+      obtain ⟨he, hfo⟩ := hG
+      subst he; subst hfo
+      simp only [ne_eq, not_true_eq_false, if_false]
+      obtain ⟨_, _, hops⟩ := conforming_cases f (hconf rfl)
+      rcases hops with ⟨hop, _, _⟩ | hop
+      · obtain ⟨hc1, hc2⟩ := isControl_of f.op hop
+        simp only [hc1, hc2, if_true]
+        obtain ⟨m', e', a', h2, hE2, hs1, hs2, hrest⟩ :=
+          ih m1 s1 { a with ctl := a.ctl ++ [(f.op, f.payload)] } ty hQ1 hA hn
+        exact ⟨m', e', a', h2, hE1.trans hE2, hs1.trans hfr.1, hs2.trans hfr.2.1, hrest⟩
+      · obtain ⟨hc1, hc2⟩ := notControl_of f.op hop
+        simp only [hc1, hc2, Bool.false_eq_true, if_false]
+        have hmax : s1.max = m1.max := hQ1.max
+        have han : a.n = a.data.length := hA.1
+        by_cases hbig : a.n + f.payload.length > buf ∨ a.n + f.payload.length > m1.max
+        · have hm : (a.n + min (buf - a.n) f.payload.length > m1.max ∨
+              min (buf - a.n) f.payload.length ≠ f.payload.length) := by omega
+          have hs : (decide ((a.data ++ f.payload).length > buf) || decide ((a.data ++ f.payload).length > s1.max)) = true := by
+            simp only [Bool.or_eq_true, decide_eq_true_eq, List.length_append]
+            rw [hmax, ← han]; exact hbig
+          simp only [hm, hs, if_true]
+          by_cases ha : m1.state = .active
+          · obtain ⟨hQc, _, hEc, hst⟩ := Q_close hQ1 ha 1001 tooBigReason .closeAny (by simp [Expect.matches])
+            have hso : s1.stage = .opened := (opened_iff hQ1).2 ha
+            refine ⟨_, _, _, rfl, hE1.trans hEc, ?_, ?_, ?_⟩
+            · simp only [hso]; split <;> exact hfr.1
+            · simp only [hso]; split <;> exact hfr.2.1
+            · intro hcn
+              have hcn' : cn = true := by rw [hcn, hst]; rfl
+              simp only [hso, hcn', Bool.and_self, decide_true, if_true]
+              exact ⟨hQc, by simp [retOk]⟩
+          · have hso : ¬ s1.stage = .opened := fun hx => ha ((opened_iff hQ1).1 hx)
+            rw [close_inactive m1 _ _ ha]
+            refine ⟨_, _, _, rfl, hE1, ?_, ?_, ?_⟩
+            · simp only [hso, decide_false, Bool.false_and, Bool.false_eq_true, if_false]; exact hfr.1
+            · simp only [hso, decide_false, Bool.false_and, Bool.false_eq_true, if_false]; exact hfr.2.1
+            · intro _
+              simp only [hso, decide_false, Bool.false_and, Bool.false_eq_true, if_false]
+              exact ⟨hQ1, by simp [retOk]⟩
+        · have hk : min (buf - a.n) f.payload.length = f.payload.length := by omega
+          have hm : ¬ (a.n + f.payload.length > m1.max) := by omega
+          have hs : (decide ((a.data ++ f.payload).length > buf) || decide ((a.data ++ f.payload).length > s1.max)) = false := by
+            simp only [Bool.or_eq_false_iff, decide_eq_false_iff_not, List.length_append]
+            rw [hmax, ← han]; omega
+          simp only [hk, hm, hs, if_false, Bool.false_eq_true, List.take_length, ne_eq, not_true_eq_false, or_false]
+          have hn' : a.n + f.payload.length ≤ buf := by omega
+          have hlen : a.n + f.payload.length = (a.data ++ f.payload).length := by
+            rw [List.length_append, han]
+          rcases hA.2 with ⟨hty, hcont, htn⟩ | ⟨hty, hcont, hts⟩
+          · subst htn
+            simp only [hty, hcont, if_true, Bool.not_false, Option.isNone_none, Bool.true_and, decide_eq_true_eq,
+              Option.isSome_none, Bool.false_and, Bool.false_eq_true, if_false, Option.getD_none]
+            by_cases h0 : f.op = 0
+            · simp only [h0, if_true]
+              refine ⟨_, _, _, rfl, hE1, hfr.1, hfr.2.1, fun _ => ⟨hQ1, by simp [retOk]⟩⟩
+            · simp only [h0, if_false]
+              cases hfin : f.fin
+              · -- not the last fragment: go on
+                simp only [Bool.not_false, ne_eq, not_true_eq_false, Bool.true_eq_false, or_self, if_false,
+                  Bool.false_eq_true]
+                have hA' : AsmRel (⟨f.op, a.n + f.payload.length, a.data ++ f.payload, true, a.ctl⟩ : Asm) (some f.op) :=
+                  ⟨hlen, Or.inr ⟨by simp only; omega, rfl, rfl⟩⟩
+                obtain ⟨m', e', a', h2, hE2, hs1, hs2, hrest⟩ := ih m1 s1 _ (some f.op) hQ1 hA' hn'
+                exact ⟨m', e', a', h2, hE1.trans hE2, hs1.trans hfr.1, hs2.trans hfr.2.1, hrest⟩
+              · simp only [Bool.not_true, ne_eq, not_true_eq_false, or_true, if_true]
+                refine ⟨_, _, _, rfl, hE1, hfr.1, hfr.2.1, fun _ => ⟨hQ1, ?_⟩⟩
+                simp [retOk, hlen]
+          · subst hts
+            simp only [hty, hcont, if_false, Bool.not_true, Bool.false_eq_true, Option.isNone_some, Bool.false_and,
+              Option.isSome_some, Bool.true_and, decide_eq_true_eq, Option.getD_some]
+            by_cases h0 : f.op = 0
+            · simp only [h0, ne_eq, not_true_eq_false, if_false]
+              cases hfin : f.fin
+              · simp only [Bool.not_false, ne_eq, not_true_eq_false, Bool.true_eq_false, or_self, if_false,
+                  Bool.false_eq_true]
+                have hA' : AsmRel (⟨a.ty, a.n + f.payload.length, a.data ++ f.payload, true, a.ctl⟩ : Asm) (some a.ty) :=
+                  ⟨hlen, Or.inr ⟨hty, rfl, rfl⟩⟩
+                obtain ⟨m', e', a', h2, hE2, hs1, hs2, hrest⟩ := ih m1 s1 _ (some a.ty) hQ1 hA' hn'
+                exact ⟨m', e', a', h2, hE1.trans hE2, hs1.trans hfr.1, hs2.trans hfr.2.1, hrest⟩
+              · simp only [Bool.not_true, ne_eq, not_true_eq_false, or_true, if_true]
+                refine ⟨_, _, _, rfl, hE1, hfr.1, hfr.2.1, fun _ => ⟨hQ1, ?_⟩⟩
+                simp [retOk, hlen]
+            · simp only [h0, ne_eq, not_false_eq_true, if_true]
+              refine ⟨_, _, _, rfl, hE1, hfr.1, hfr.2.1, fun _ => ⟨hQ1, by simp [retOk]⟩⟩
+
+/-! ## One operation -/
+
+/-- Full coupling: `Q` plus the monitor's bookkeeping of what it has seen on the wire. -/
+def R (m : M) (s : S) : Prop :=
+  Q m s ∧ s.seen = m.wire.length ∧ s.sentClose = m.wire.any OutFrame.isClose
+
+/-- The application writes text or binary messages, and does not itself send Close frames through WriteFrame
+(closing is what `Close` is for). -/
+def OpOk : Op → Prop
+  | .write _ ty _ => ty = 1 ∨ ty = 2
+  | .writeFrame _ _ op _ => op < 16 ∧ op ≠ 8
+  | _ => True
+
+instance : DecidablePred OpOk := fun op => by cases op <;> unfold OpOk <;> exact inferInstance
+
+theorem post_wire {m m' : M} {w : List OutFrame} (h : m'.wire = m.wire ++ w) : (post m m').wire = w := by
+  simp [post, h]
+
+theorem finish {m m' : M} {s s' : S} (hR : R m s) (hQ' : Q m' s') (hE : Ext m m')
+    (h1 : s'.seen = s.seen) (h2 : s'.sentClose = s.sentClose) :
+    postOk s' (post m m') = true ∧ R m' (commit s' (post m m')) := by
+  obtain ⟨w, hw⟩ := hE
+  obtain ⟨_, hseen, hsent⟩ := hR
+  have hpw : (post m m').wire = w := post_wire hw
+  have hex := hQ'.ex
+  have hcl := hQ'.cl
+  unfold out at hex hcl
+  rw [hw] at hex hcl
+  have hlen := matchExact_length hex
+  simp only [List.length_append] at hlen
+  constructor
+  · unfold postOk
+    rw [hpw]
+    simp only [Bool.and_eq_true, beq_iff_eq]
+    refine ⟨⟨⟨hQ'.st, ?_⟩, ?_⟩, ?_⟩
+    · show s'.seen + w.length + m'.pending.length = s'.expect.length
+      rw [h1, hseen, hlen]
+    · rw [h1, hseen]; exact matchAll_of_exact m.wire w m'.pending hex
+    · rw [h2, hsent]; exact discipline_of_closeLast m.wire w m'.pending hcl
+  · refine ⟨⟨hQ'.max, hQ'.inq, hQ'.rerr, hQ'.eof, hQ'.st, hQ'.ex, hQ'.cl, hQ'.nc⟩, ?_, ?_⟩
+    · show s'.seen + (post m m').wire.length = m'.wire.length
+      rw [hpw, hw, h1, hseen, List.length_append]
+    · show (s'.sentClose || (post m m').wire.any OutFrame.isClose) = m'.wire.any OutFrame.isClose
+      rw [hpw, hw, h2, hsent, List.any_append]
+
+theorem accept_of {m m' : M} {s s' : S} {op : Op} {r : Ret} {want : Want}
+    (hR : R m s) (hadv : advance s (m'.state == .closedByUs) op = (s', want)) (hret : retOk want r = true)
+    (hQ' : Q m' s') (hE : Ext m m') (h1 : s'.seen = s.seen) (h2 : s'.sentClose = s.sentClose) :
+    ∃ s'', Spec.WsStream.step s op (.ok r (post m m')) = some s'' ∧ R m' s'' := by
+  obtain ⟨hp, hR'⟩ := finish hR hQ' hE h1 h2
+  refine ⟨commit s' (post m m'), ?_, hR'⟩
+  unfold Spec.WsStream.step
+  have : (post m m').state = m'.state := rfl
+  simp only [this, hadv, hret, hp, Bool.and_self, if_true]
+
+theorem Q_push_write {m : M} {s : S} (h : Q m s) (ha : m.state = .active) (f : OutFrame) (hm : f.masked = true)
+    (hc : f.isClose = false) : Q (flush (prepareWrite m f)) (s.push (.frame f)) ∧ Ext m (flush (prepareWrite m f)) := by
+  have hf : ({ f with masked := true } : OutFrame) = f := by cases f; simp_all
+  refine ⟨⟨h.max, h.inq, h.rerr, h.eof, h.st, ?_, ?_, ?_⟩, ?_⟩
+  · rw [out_flush, out_prepareWrite, hf]
+    exact matchExact_snoc h.ex (by simp [Expect.matches])
+  · rw [out_flush, out_prepareWrite]; exact closeLast_snoc _ (h.nc ha)
+  · intro _
+    rw [out_flush, out_prepareWrite, hf]
+    exact noClose_append (h.nc ha) (noClose_single hc)
+  · exact ⟨m.pending ++ [{ f with masked := true }], by simp [flush, prepareWrite]⟩
+
+theorem step_refines (m : M) (s : S) (op : Op) (hR : R m s) (hop : OpOk op) :
+    ∃ s', Spec.WsStream.step s op (Model.WsStream.step m op).2 = some s' ∧ R (Model.WsStream.step m op).1 s' := by
+  have hQ := hR.1
+  cases op with
+  | peer f =>
+    exact accept_of (m' := { m with inq := m.inq ++ [f] }) (s' := { s with inq := s.inq ++ [f] }) hR rfl rfl
+      ⟨hQ.max, by simp [hQ.inq], hQ.rerr, hQ.eof, hQ.st, hQ.ex, hQ.cl, hQ.nc⟩ (Ext.refl m) rfl rfl
+  | eof =>
+    exact accept_of (m' := { m with eof := true }) (s' := { s with eof := true }) hR rfl rfl
+      ⟨hQ.max, hQ.inq, hQ.rerr, rfl, hQ.st, hQ.ex, hQ.cl, hQ.nc⟩ (Ext.refl m) rfl rfl
+  | ioerr =>
+    exact accept_of (m' := { m with rerr := true }) (s' := { s with rerr := true }) hR rfl rfl
+      ⟨hQ.max, hQ.inq, rfl, hQ.eof, hQ.st, hQ.ex, hQ.cl, hQ.nc⟩ (Ext.refl m) rfl rfl
+  | nextFrame async =>
+    obtain ⟨m', e, fo, h1, hQ', hE, hG⟩ := nf hQ async
+    have hfr := receive_frame s
+    simp only [Model.WsStream.step, h1]
+    rcases hrec : receive s with ⟨s1, g⟩
+    rw [hrec] at hQ' hG hfr
+    simp only at hQ' hG hfr
+    cases g with
+    | stop w =>
+      exact accept_of hR (s' := s1) (want := w) (by simp [advance, readFrame, hrec]) hG.2.1 hQ' hE hfr.1 hfr.2.1
+    | violated =>
+      exact accept_of hR (s' := s1) (want := .violation []) (by simp [advance, readFrame, hrec])
+        (by simp only [retOk]; exact hG) hQ' hE hfr.1 hfr.2.1
+    | frame f =>
+      obtain ⟨he, hfo⟩ := hG
+      subst he; subst hfo
+      exact accept_of hR (s' := s1) (want := .deliverFrame f) (by simp [advance, readFrame, hrec])
+        (by simp [retOk]) hQ' hE hfr.1 hfr.2.1
+  | nextMsg async buf =>
+    have hA : AsmRel ({} : Asm) none := ⟨rfl, Or.inl ⟨rfl, rfl, rfl⟩⟩
+    obtain ⟨m', e, a', h1, _, _, _, _⟩ := nm async buf false (m.inq.length + 2) m s {} none hQ hA (Nat.zero_le _)
+    obtain ⟨m'', e', a'', h1', hE, hs1, hs2, hrest⟩ :=
+      nm async buf (m'.state == .closedByUs) (m.inq.length + 2) m s {} none hQ hA (Nat.zero_le _)
+    rw [h1] at h1'
+    injection h1' with h1'
+    injection h1' with hm he
+    injection he with he ha
+    subst hm; subst he; subst ha
+    obtain ⟨hQ', hret⟩ := hrest rfl
+    simp only [Model.WsStream.step, h1]
+    refine accept_of hR (s' := (readMsg (m'.state == .closedByUs) buf (s.inq.length + 2) s none []).1)
+      (want := (readMsg (m'.state == .closedByUs) buf (s.inq.length + 2) s none []).2) ?_ ?_ ?_ hE ?_ ?_
+    · simp [advance]
+    · rw [hQ.inq]; exact hret
+    · rw [hQ.inq]; exact hQ'
+    · rw [hQ.inq]; exact hs1
+    · rw [hQ.inq]; exact hs2
+  | write async ty payload =>
+    simp only [Model.WsStream.step, write]
+    by_cases hbig : payload.length > m.max
+    · simp only [hbig, if_true]
+      have hnb : ¬ payload.length ≤ s.max := by rw [hQ.max]; omega
+      exact accept_of hR (s' := s) (want := .refused) (by simp [advance, hnb]) (by simp [retOk]) hQ (Ext.refl m) rfl rfl
+    · simp only [hbig, if_false]
+      have hnb : payload.length ≤ s.max := by rw [hQ.max]; omega
+      by_cases ha : m.state = .active
+      · have hso : s.stage = .opened := (opened_iff hQ).2 ha
+        have hty : ty % 16 = ty := by rcases hop with h | h <;> subst h <;> rfl
+        simp only [ha, beq_self_eq_true, if_true, hty]
+        obtain ⟨hQ', hE⟩ := Q_push_write hQ ha { fin := true, op := ty, masked := true, payload := payload } rfl
+          (by rcases hop with h | h <;> subst h <;> rfl)
+        exact accept_of hR (want := .accepted) (by simp [advance, hso, hnb]) (by simp [retOk]) hQ' hE rfl rfl
+      · have hso : ¬ s.stage = .opened := fun hx => ha ((opened_iff hQ).1 hx)
+        have hb : (m.state == StreamState.active) = false := by simpa using ha
+        simp only [hb, Bool.false_eq_true, if_false]
+        exact accept_of hR (s' := s) (want := .refused) (by simp [advance, hso]) (by simp [retOk]) hQ (Ext.refl m) rfl rfl
+  | writeFrame async fin op payload =>
+    simp only [Model.WsStream.step, writeFrame]
+    by_cases ha : m.state = .active
+    · have hso : s.stage = .opened := (opened_iff hQ).2 ha
+      have hty : op % 16 = op := Nat.mod_eq_of_lt hop.1
+      simp only [ha, beq_self_eq_true, if_true, hty]
+      obtain ⟨hQ', hE⟩ := Q_push_write hQ ha { fin := fin, op := op, masked := true, payload := payload } rfl
+        (by simp [OutFrame.isClose, hop.2])
+      exact accept_of hR (want := .accepted) (by simp [advance, hso]) (by simp [retOk]) hQ' hE rfl rfl
+    · have hso : ¬ s.stage = .opened := fun hx => ha ((opened_iff hQ).1 hx)
+      have hb : (m.state == StreamState.active) = false := by simpa using ha
+      simp only [hb, Bool.false_eq_true, if_false]
+      exact accept_of hR (s' := s) (want := .refused) (by simp [advance, hso]) (by simp [retOk]) hQ (Ext.refl m) rfl rfl
+  | flush async =>
+    exact accept_of hR (m' := flush m) (s' := s) (want := .accepted) (by simp [advance]) (by simp [retOk])
+      (Q_flush hQ) (Ext.flush m) rfl rfl
+  | close async code reason =>
+    simp only [Model.WsStream.step]
+    by_cases ha : m.state = .active
+    · have hso : s.stage = .opened := (opened_iff hQ).2 ha
+      obtain ⟨hQ', he, hE, _⟩ := Q_close hQ ha code reason
+        (.frame { fin := true, op := 8, masked := true, payload := u16 code ++ reason }) (by simp [Expect.matches])
+      exact accept_of hR (want := .accepted) (by simp [advance, hso]) (by simp [retOk, he]) hQ' hE rfl rfl
+    · have hso : ¬ s.stage = .opened := fun hx => ha ((opened_iff hQ).1 hx)
+      have hm' := close_inactive m code reason ha
+      have he := close_err_inactive m code reason ha
+      rcases hc : close m code reason with ⟨m', e⟩
+      rw [hc] at hm' he
+      simp only at hm' he
+      subst hm'
+      exact accept_of hR (s' := s) (want := .refused) (by simp [advance, hso]) (by simp [retOk, he]) hQ (Ext.refl _) rfl rfl
 
 end Sonic.Lemmas.WsRefine
